@@ -2,6 +2,7 @@ package main
 
 import (
 	"fmt"
+	"sync"
 	"regexp"
 	"strconv"
 	"go/constant"
@@ -977,6 +978,7 @@ func (x *Exec) makeIface(st *State, v Val, t types.Type) Val {
 	for k, l := range ls {
 		st.assume(Eq(reg.uf(fmt.Sprintf("%s_get%d", fn, k), l.Sort, pay), l))
 	}
+	boxedLeaves.Store(pay.S, ls)
 	return IfaceV{tag, pay}
 }
 
@@ -985,6 +987,13 @@ func unbox(st *State, iv IfaceV, t types.Type) Val {
 	if len(lv) == 1 && lv[0].Sort == SInt {
 		v, _ := unflatten(t, []Term{iv.Pay})
 		return v
+	}
+	if orig, ok := boxedLeaves.Load(iv.Pay.S); ok {
+		// the value boxed by this very term: its components are known syntactically
+		if ls := orig.([]Term); len(ls) == len(lv) {
+			v, _ := unflatten(t, ls)
+			return v
+		}
 	}
 	fn := "box" + mangle(types.TypeString(t, nil))[1:]
 	var ls []Term
@@ -1449,6 +1458,8 @@ func (x *Exec) copySlice(st *State, b SliceV, lo, n Term) Val {
 	}
 	return SliceV{r, IntLit(0), n, b.Elem}
 }
+
+var boxedLeaves sync.Map
 
 var kSymRe = regexp.MustCompile(`\bk(\d+)`)
 
